@@ -144,7 +144,7 @@ func extractNames(c *Ctx) *curNames {
 			cn.g.Vars[name] = "var " + c.typeStr(o.Type())
 			cn.varObj[name] = o
 		case *types.Const:
-			cn.g.Vars[name] = "const " + c.typeStr(o.Type())
+			cn.g.Vars[name] = "const " + c.typeStr(o.Type()) + " = " + o.Val().ExactString()
 			cn.varObj[name] = o
 		}
 	}
@@ -417,23 +417,34 @@ func computeRenames(c *Ctx, g *goldenNames) *renameSet {
 		}
 		sort.Strings(miss)
 		sort.Strings(extra)
+		usedV := map[string]bool{}
+		doneV := map[string]bool{}
 		for _, m := range miss {
 			var cands []string
 			for _, e := range extra {
-				if canonStr(cur.g.Vars[e]) == g.Vars[m] {
+				if !usedV[e] && canonStr(cur.g.Vars[e]) == g.Vars[m] {
 					cands = append(cands, e)
 				}
 			}
 			nSame := 0
 			for _, m2 := range miss {
-				if g.Vars[m2] == g.Vars[m] {
+				if g.Vars[m2] == g.Vars[m] && !doneV[m2] {
 					nSame++
 				}
 			}
-			if len(cands) == 1 && nSame == 1 {
-				rs.byObj[cur.varObj[cands[0]]] = m
-				rs.notes = append(rs.notes, fmt.Sprintf("package-level %s -> %s", cands[0], m))
+			isConst := strings.HasPrefix(g.Vars[m], "const ")
+			switch {
+			case len(cands) == 1 && nSame == 1:
+			case isConst && len(cands) == nSame && nSame > 1:
+				// several constants of one type and value were renamed together: they are
+				// interchangeable for every rule (only values are compared); pair in name order
+			default:
+				continue
 			}
+			usedV[cands[0]] = true
+			doneV[m] = true
+			rs.byObj[cur.varObj[cands[0]]] = m
+			rs.notes = append(rs.notes, fmt.Sprintf("package-level %s -> %s", cands[0], m))
 		}
 	}
 
@@ -713,6 +724,7 @@ func normaliseNames(c *Ctx, o loadOpts) *Ctx {
 		return c
 	}
 	c2.Dir = o.dir
+	c2.LoadDir = tmp
 	c2.NameNotes = rs.notes
 	return c2
 }
